@@ -83,7 +83,9 @@ type symEval struct {
 	norm   func(e string) string
 	// nonEmpty: the collection a loop ranges over has at least one element (the zero-iteration path is not taken)
 	nonEmpty func(coll string) bool
-	steps    int
+	// loopIters: how many generic elements a range loop is evaluated for (0 = one)
+	loopIters int
+	steps     int
 }
 
 func (se *symEval) n(e string) string {
@@ -137,7 +139,11 @@ func (se *symEval) run(f *ssa.Function, args []sval, free []sval, st0 *sstate, d
 			return []spathResult{{ret: []sval{sv("UNK:budget")}, st: st0}}
 		}
 		isLoopHdr := strings.HasPrefix(cur.b.Comment, "rangeindex.loop") || strings.HasPrefix(cur.b.Comment, "rangeiter.loop")
-		if cur.visit[cur.b] >= 2 {
+		limit := 2
+		if se.loopIters > 1 {
+			limit = se.loopIters + 1
+		}
+		if cur.visit[cur.b] >= limit {
 			out = append(out, spathResult{ret: []sval{sv("UNK:loop")}, st: cur.st})
 			continue
 		}
@@ -213,7 +219,7 @@ func (se *symEval) run(f *ssa.Function, args []sval, free []sval, st0 *sstate, d
 			case *ssa.Jump:
 				stack = append(stack, state{b: cur.b.Succs[0], pred: cur.b, st: st.clone(), visit: visit})
 			case *ssa.If:
-				if isLoopHdr && visit[cur.b] == 2 {
+				if isLoopHdr && visit[cur.b] == limit {
 					// after the generic element: the loop is over
 					stack = append(stack, state{b: cur.b.Succs[1], pred: cur.b, st: st.clone(), visit: visit})
 					continue
